@@ -586,3 +586,29 @@ def r02_13(ctx):
                 "window / congestion / Nagle tests: after three duplicate ACKs nothing is resent, the timer goes idle and the connection stalls", body=b, bb=bad[0][0])
     else:
         ctx.ok(('seq_to_transmit', 'fast-retransmit'), sample=dict(fn='seq_to_transmit', under='pending_fast_retransmit && !tx_buffer.is_empty()', result='true'))
+
+
+@rule('R08.7', ['C08', 'C10', 'C20'], floor=2, clause='a UDP checksum that computes to zero is transmitted as 0xffff (zero on the wire means "no checksum", which IPv6 forbids), in the plain and in the 6LoWPAN-compressed emitter')
+def r08_7(ctx):
+    F = ctx.F
+    sites = [('wire::udp::Packet', 'fill_checksum', 'wire::udp::Packet'), ('wire::sixlowpan::nhc::UdpNhcRepr', 'emit', 'wire::sixlowpan::nhc::UdpNhcPacket')]
+    for adt, fn, view in sites:
+        b = ctx.method(adt, fn)
+        sc = F.method(view, 'set_checksum')
+        ctx.need(sc is not None, f"{view}::set_checksum")
+        stores = [x for x in b.calls() if b.callee_name(x[1]) == sc.key and not (x[2][1][0] == 'k' and x[2][1][2] == 0)]
+        ctx.need(stores, f"store of the computed checksum in {adt}::{fn}")
+        short = adt.split('::', 1)[1] + '::' + fn
+        for x in stores:
+            o = strip(F.origin.operand(b, x[2][1], x[0], len(b.blocks[x[0]]['s'])))
+            alts = list(o[1]) if o[0] == 'phi' else [o]
+            nots = [a for a in alts if strip(a)[0] == 'un' and strip(a)[1] == 'Not']
+            ones = [a for a in alts if const_of(a) == 0xffff]
+            iszero = lambda f: f[0] == 'rel' and f[1] in ('Eq', 'Ne') and any(const_of(s_) == 0 for s_ in (f[2], f[3])) \
+                and any(strip(s_)[0] == 'un' and strip(s_)[1] == 'Not' for s_ in (f[2], f[3]))
+            tested = guard_edges(F, b, iszero)
+            if nots and ones and tested:
+                ctx.ok((short, 'zero->0xffff'), sample=dict(fn=short, stores='if sum == 0 { 0xffff } else { sum }'))
+            else:
+                ctx.bad(f"{short}|zero-checksum-emitted", f"{short} stores the complemented sum as it is: when it computes to 0 the datagram is sent with the 'no checksum' "
+                        "value, which receivers of UDP over IPv6 must discard", body=b, bb=x[0])
